@@ -731,6 +731,35 @@ func checkDerived(c Case) string {
 			return fmt.Sprintf("[a,b,c].order(e->e) = %s is not a permutation of %s", ref.Show(got.Val), ref.Show(in))
 		}
 	}
+	// order with an element that '<' cannot compare with ANY of the others: every sort has
+	// to compare it with one of them, so order and orderRev fail - in every arrangement
+	{
+		rs := []ref.Value{ra, rb, rc}
+		is := []value.Value{ia, ib, ic}
+		odd := false
+		for i := range rs {
+			all := true
+			for j := range rs {
+				if i != j && !(modelLess(rs[i], rs[j]) == tErr && modelLess(rs[j], rs[i]) == tErr) {
+					all = false
+				}
+			}
+			odd = odd || all
+		}
+		if odd {
+			for _, perm := range [][3]int{{0, 1, 2}, {0, 2, 1}, {1, 0, 2}, {1, 2, 0}, {2, 0, 1}, {2, 1, 0}} {
+				for _, m := range []string{"order", "orderRev"} {
+					got := progs.Observe(derivedFn("[a,b,c]."+m+"(e->e)", "a", "b", "c").Eval(is[perm[0]], is[perm[1]], is[perm[2]]))
+					if got.Err == nil {
+						if l, ok := got.Val.(*ref.List); !ok || l.Err == nil {
+							return fmt.Sprintf("[a,b,c].%s(e->e) on a=%s b=%s c=%s returns %s although one element is incomparable with both others", m,
+								ref.Show(rs[perm[0]]), ref.Show(rs[perm[1]]), ref.Show(rs[perm[2]]), ref.Show(got.Val))
+						}
+					}
+				}
+			}
+		}
+	}
 	// switch agrees with '='
 	sw := progs.Observe(derivedFn("switch a case b: 1 case c: 2 default 3", "a", "b", "c").Eval(ia, ib, ic))
 	e1, e2 := modelEqual(ra, rb), modelEqual(ra, rc)
